@@ -65,4 +65,7 @@ def held(hooks, site, first, second, timeout=5.0):
     finally:
         hooks.release(site)
         t.join(30)
+        for f in glob.glob(os.path.join(hooks.dir, "go.%s.*" % site)):      # (so that the next schedule's first passage parks again)
+            try: os.remove(f)
+            except OSError: pass
     return res.get("a"), res.get("b"), parked
